@@ -110,10 +110,11 @@ func (s *BaseCompactionStrategy) LoadSSTables() error {
 		s.levels[level] = append(s.levels[level], info)
 	}
 
-	// Sort files within each level by sequence number
+	// Sort files within each level by age, oldest first. The creation timestamp is the age:
+	// file numbers restart at 1 on every open (and per compaction task) and say nothing about it.
 	for level, files := range s.levels {
-		sort.Slice(files, func(i, j int) bool {
-			return files[i].Sequence < files[j].Sequence
+		sort.SliceStable(files, func(i, j int) bool {
+			return files[i].Timestamp < files[j].Timestamp
 		})
 		s.levels[level] = files
 	}
